@@ -135,8 +135,9 @@ def run(tier):
         bad = None
         for r in rows:
             seq = vals[json.dumps(r["mono"])]
-            if r["init"] is not None and seq and Fr(r["init"]) != seq[0]:
-                bad = (r, "initial-value", 0, r["init"], H.fr_str(seq[0]))
+            if seq and (r["init"] is None or Fr(r["init"]) != seq[0]):
+                # a recorded initial value that is not a number at the parameter point still contains a program variable
+                bad = (r, "initial-value", 0, r["init"] if r["init"] is not None else r.get("init_expr"), H.fr_str(seq[0]))
                 break
             for n in range(len(seq) - 1):
                 rhs = Fr(0)
